@@ -3,6 +3,7 @@
   writes one JSON result per line on stdout. "reset" starts a fresh heap.
 -/
 import Driver.Codec
+import Prov.Factory
 import Std.Data.HashMap
 
 open Lean Prov
@@ -113,6 +114,33 @@ def step (s : St) (j : Json) : R (St × Json) := do
     let attrs ← decAttrs s (← j.getObjVal? "attrs")
     match s.h.newRecord c kind id attrs with
     | (h, .ok r) => return (← { s with h := h }.bindRec j r, errJson none)
+    | (h, .error e) => return ({ s with h := h }, errJson (some e))
+  | "factory" =>
+    let c ← s.cont j "c"
+    let fname ← (← j.getObjVal? "f").getStr?
+    let spec ← match factorySpec fname with
+      | some sp => pure sp
+      | none => throw s!"unknown factory {fname}"
+    let id ← decNameArg (← j.getObjVal? "id")
+    let args ← (← (← j.getObjVal? "args").getArr?).toList.mapM (decArgVal s)
+    let other ← decAttrs s (← j.getObjVal? "other")
+    match s.h.factory c spec id args other with
+    | (h, .ok r) => return (← { s with h := h }.bindRec j r, errJson none)
+    | (h, .error e) => return ({ s with h := h }, errJson (some e))
+  | "conv" =>
+    let r ← s.recH j "r"
+    let mname ← (← j.getObjVal? "m").getStr?
+    let fname ← match convTable.find? (·.1 == mname) with
+      | some p => pure p.2
+      | none => throw s!"unknown convenience method {mname}"
+    let spec ← match factorySpec fname with
+      | some sp => pure sp
+      | none => throw s!"unknown factory {fname}"
+    let args ← (← (← j.getObjVal? "args").getArr?).toList.mapM (decArgVal s)
+    let other ← decAttrs s (← j.getObjVal? "other")
+    let cell := s.h.recCell r
+    match s.h.factory cell.bundle spec .nil (ArgVal.recId cell.r.id :: args) other with
+    | (h, .ok nr) => return (← { s with h := h }.bindRec j nr, errJson none)
     | (h, .error e) => return ({ s with h := h }, errJson (some e))
   | "add_attrs" =>
     let r ← s.recH j "r"
